@@ -5,7 +5,7 @@
    overlap flag is raised exactly when a used bit is claimed again (C02_overlap_flag).
    The composite statement (layout of whole parameter trees) is correspondence-only. *)
 From Coq Require Import ZArith List Bool.
-From OV Require Import Base.Bytes Base.Wire Generated Model.Str Model.Codec Proofs.BytesProofs Proofs.AtomicProofs Proofs.CodecProps Proofs.FlatProofs Proofs.TreeProofs Proofs.TreeWireProofs.
+From OV Require Import Base.Bytes Base.Wire Generated Model.Str Model.Codec Proofs.BytesProofs Proofs.AtomicProofs Proofs.CodecProps Proofs.FlatProofs Proofs.TreeProofs Proofs.TreeWireProofs Proofs.FieldProofs.
 Import ListNotations.
 Open Scope Z_scope.
 
@@ -104,3 +104,18 @@ Example C02_nested_example :
   concat (flat_map leaves ts) = [34; 1; 188; 10; 3; 255].
 Proof. exact tree_wire_example. Qed.
 Print Assumptions C02_nested_example.
+
+(* ---------- lists of structures (Proofs/FieldProofs.v) ---------- *)
+(* the PDU of a message of good members (leaves, structures, STATIC-FIELDs of structures, nested) is the
+   concatenation of the member bytes; a field contributes the concatenation of its items' bytes, a structure the
+   concatenation of its members' bytes (definitions field_rm / struct_rm); no overlap warning *)
+Theorem C02_message_of_members_wire_format : forall k rs,
+  (forall x, In x rs -> rgood k x) -> NoDup (map m_name (rms rs)) ->
+  (k + 1 <= fuel_of (map m_p (rms rs)))%nat ->
+  encode_msg (map m_p (rms rs)) None (VDict (in_dict (rms rs))) = Ok (concat (map r_w rs), false).
+Proof. intros k rs Hg ND Hf. exact (proj1 (rmessage_roundtrip k rs Hg ND Hf)). Qed.
+Print Assumptions C02_message_of_members_wire_format.
+
+Theorem C02_field_bytes : forall nm ps isz items, r_w (field_rm nm ps isz items) = concat (map rbytes items).
+Proof. reflexivity. Qed.
+Print Assumptions C02_field_bytes.
